@@ -1,5 +1,6 @@
 import SaModel.Props.C03Traced
 import SaModel.Props.C01Dict
+import SaModel.Lemmas.C01ObsDictNew
 /-
 C03 / C01 — the codec and traced instances of the wave-10 statements (package `dict`): dictionaries with ANY value type but a
 nested dictionary.
@@ -14,6 +15,8 @@ nested dictionary.
   C03_wf_codec_typed''      … with typed rows (what the driver instantiates)
   C03_wf_traced''           … for a `from_type` schema (user overwrites may put any dictionary there)
   C01_build_decode_codec''  `C01_build_decode_codec` with `coveredWF` for `coveredF`
+  dict_push_new_interp_partial   the content half (R2') at a dictionary with a Utf8View or parsed value type, for a string that is
+                            NEW to the dictionary; missing: the index-hit case (see Lemmas/C01ObsDictNew.lean)
 -/
 namespace SaModel.Props.C03
 open SaModel SaModel.Build SaModel.Spec
@@ -172,5 +175,46 @@ example : (do let root ← runRows exExt exDateDictFields exDateDictRows; pure (
       .ok [[.null, .struct (.cons "d" (.int 10) .nil), .null, .struct (.cons "d" (.int 10) .nil),
         .struct (.cons "d" (.int 19782) .nil)]] ∧
     (toMarrow exExt exDateDictFields [.record "R" (.cons "s" 0 .none .nil)]).isErr = true := by decide +kernel
+
+/-! ### the content half at the value types outside `coveredW`: what holds without a new state invariant -/
+
+/-- **R2' at `Dictionary(integer, V)`, `V` ∈ {Utf8View, Date32, Date64, Time32, Time64, Timestamp, Duration, Decimal128}, for a string
+NEW to the dictionary** — the determined row the push appends is `Spec.interpDictStr ext V s` (the string for Utf8View, the
+parsed value otherwise).  PARTIAL: what is missing for R2' (and hence for `C01_build_decode` at these value types) is the case
+of a string ALREADY in the index — the row is then `dec vals[i]` for the position `i` of the earlier push, and "values decoded =
+index entries interpreted at V" is not part of the state invariant `WFB` / `WFH` (for the parsed kinds it depends on `ext`) — and
+a nested dictionary as value type. -/
+theorem dict_push_new_interp_partial (ext : Ext) {p : String} {idx vals : B} {index : List String} {x : SVal} {b' : B}
+    {lv : LVal} {vdt : DataType} {s : String}
+    (hwf : WFH (.dictionary p idx vals index)) (hil : idx.isIntLeaf = true)
+    (hsv : Shape vals vdt false []) (hfv : vals.isFlat = true) (hv : dictValFlatOpen vdt = true)
+    (hs : scalarToString ext x = some s) (hnew : indexOfName index s = none)
+    (h : pushScalar ext (.dictionary p idx vals index) x = .ok b')
+    (hd : Refines (decH b') (decH (.dictionary p idx vals index) ++ [some lv])) :
+    interpDictStr ext vdt s = .ok lv :=
+  Build.dict_push_new_interp_partial ext hwf hil hsv hfv hv hs hnew h hd
+
+/-- non-vacuity: a `Dictionary(UInt8, Date32)` builder that already holds "1970-01-11" takes the NEW string "2024-02-29": the row
+appended is the date 19782 -/
+def exDateDictB : B :=
+  .dictionary "$.d" (.leaf "$.d.key" (.int .u8) none [0]) (.leaf "$.d.value" .date32 none [10]) ["1970-01-11"]
+
+example : ∃ b' lv, pushScalar exExt exDateDictB (.str "2024-02-29") = .ok b' ∧
+    Refines (decH b') (decH exDateDictB ++ [some lv]) ∧ interpDictStr exExt .date32 "2024-02-29" = .ok lv ∧ lv = .int 19782 := by
+  have hwf : WFH exDateDictB := by
+    apply WFH_of_WFB
+    simp [exDateDictB, WFB, VLen, DictVals, B.isUtf8B, B.refusesStr, dec, maskNull, leafVal]
+  have hnd : NoDictKey exDateDictB := by simp [exDateDictB, NoDictKey, B.isDict]
+  have hok : (pushScalar exExt exDateDictB (.str "2024-02-29")).isOk = true := by decide +kernel
+  cases hp : pushScalar exExt exDateDictB (.str "2024-02-29") with
+  | error e => rw [hp] at hok; cases hok
+  | ok b' =>
+    obtain ⟨_, lv, hd⟩ := pushScalar_refines exExt exDateDictB _ b' hwf hnd hp
+    have hi := dict_push_new_interp_partial exExt (vdt := .date32) (s := "2024-02-29") hwf rfl
+      (by simp [Shape, kindOf]) rfl rfl rfl (by decide) hp hd
+    refine ⟨b', lv, rfl, hd, hi, ?_⟩
+    have : interpDictStr exExt .date32 "2024-02-29" = .ok (.int 19782) := by decide +kernel
+    rw [this] at hi
+    exact (Except.ok.inj hi).symm
 
 end SaModel.Props.C03
